@@ -562,7 +562,7 @@ type genOut struct {
 
 // one generated application
 func genApp(r *rand.Rand) genOut {
-	g := &egen{r: r, flagCount: pick(r, []int{4, 4, 4, 4, 1, 0, 9})}
+	g := &egen{r: r, flagCount: pick(r, []int{4, 4, 4, 4, 1, 0, 9, 4, 4, 300})}
 	nn := 2 + r.Intn(4)
 	g.nodes = append([]string{"root"}, eNodePool[:nn]...)
 	g.syms = eSymPool[:2+r.Intn(3)]
@@ -932,6 +932,8 @@ var engineCorpus = []corpusCase{
 		fn: map[string][]eFres{"aa": []eFres{{Content: "v", Set: []uint32{8}}}, "bb": st1(" bye")}, cfg: eCfg{FlagCount: 2, CacheSize: 100}, inputs: []string{"", "1", "1", "", "1", "1"}},
 	{name: "anon-node", nodes: [][3]string{{"root", "HALT; INCMP _ 0; INCMP end1 1", "root"}, {"", "LOAD aa 0; HALT; INCMP root *", "anon"}, {"end1", "LOAD bb 0; HALT", "the end"}, {"_catch", "HALT; INCMP _ *", "catch"}},
 		fn: map[string][]eFres{"aa": st1("v"), "bb": st1(" bye")}, cfg: eCfg{FlagCount: 1, CacheSize: 100}, inputs: []string{"", "0", "x", "1", "", "0"}},
+	{name: "wide-flags", nodes: [][3]string{{"root", "LOAD aa 0; CATCH hi 264 1; HALT; INCMP lo 1", "root"}, {"hi", "HALT; INCMP _ 0", "hi"}, {"lo", "LOAD bb 0; CATCH hi 8 1; CATCH hi 300 1; HALT; INCMP _ 0", "lo"}, {"_catch", "HALT; INCMP _ *", "catch"}},
+		fn: map[string][]eFres{"aa": []eFres{{Content: "v", Set: []uint32{264}}, {Content: "w", Reset: []uint32{264}}}, "bb": []eFres{{Content: "x", Set: []uint32{300}}}}, cfg: eCfg{FlagCount: 300}, inputs: []string{"", "0", "1", "0", "0"}},
 	{name: "abnormal-end", nodes: [][3]string{{"root", "HALT; INCMP foo 1", "root"}, {"foo", "LOAD aa 10", "foo"}, {"_catch", "HALT; INCMP _ *", "catch"}},
 		fn: map[string][]eFres{"aa": st1("v")}, cfg: eCfg{FlagCount: 2}, inputs: []string{"", "1", "", "1"}},
 	{name: "browse-past-end", nodes: [][3]string{{"root", "LOAD aa 0; MAP aa; MNEXT nxt 11; MPREV prv 22; HALT; INCMP > 11; INCMP < 22", "r {{.aa}}"}, {"_catch", "MOUT back 0; HALT; INCMP _ 0", "catch"}},
